@@ -4,6 +4,7 @@ import (
 	"go/token"
 	"go/types"
 	"sort"
+	"strconv"
 	"strings"
 
 	"golang.org/x/tools/go/ssa"
@@ -212,7 +213,116 @@ type FuncFacts struct {
 func NewFuncFacts(t *Terms) *FuncFacts {
 	ff := &FuncFacts{T: t, Fn: t.Fn, removed: map[[2]int]bool{}}
 	ff.recompute()
+	ff.foldDecided()
 	return ff
+}
+
+// doneErrNonNil applies the contract of context.Context: once a receive from ctx.Done() has
+// succeeded, ctx.Err() is non-nil. cond is `x != nil` / `x == nil` with x = ctx.Err() evaluated
+// where the facts say that a select took its `<-ctx.Done()` case for the same ctx. It returns
+// +1 when cond is known true, -1 when known false, 0 otherwise.
+func (ff *FuncFacts) doneErrNonNil(cond ssa.Value, fs FactSet) int {
+	bo, ok := cond.(*ssa.BinOp)
+	if !ok || (bo.Op != token.NEQ && bo.Op != token.EQL) {
+		return 0
+	}
+	var x ssa.Value
+	switch {
+	case isNilConst(bo.Y):
+		x = bo.X
+	case isNilConst(bo.X):
+		x = bo.Y
+	default:
+		return 0
+	}
+	if d := ff.T.Deref(x); d != nil {
+		x = d // a local that holds the value (the caller's `err` variable)
+	}
+	call, ok := x.(*ssa.Call)
+	if !ok || !call.Call.IsInvoke() || call.Call.Method.Name() != "Err" || call.Call.Method.Pkg() == nil || call.Call.Method.Pkg().Path() != "context" {
+		return 0
+	}
+	recv := ff.T.Of(call.Call.Value)
+	known := false
+	Instrs(ff.Fn, func(in ssa.Instruction) {
+		sel, isSel := in.(*ssa.Select)
+		if !isSel || known {
+			return
+		}
+		for k, st := range sel.States {
+			if st.Send != nil {
+				continue
+			}
+			dc, isCall := st.Chan.(*ssa.Call)
+			if !isCall || !dc.Call.IsInvoke() || dc.Call.Method.Name() != "Done" || ff.T.Of(dc.Call.Value) != recv {
+				continue
+			}
+			if fs.Has(EQ(ff.T.Of(sel)+"#0", strconv.Itoa(k))) {
+				known = true
+			}
+		}
+	})
+	if !known {
+		return 0
+	}
+	if bo.Op == token.NEQ {
+		return 1
+	}
+	return -1
+}
+
+// DeadEdges returns the edges the analysis found infeasible.
+func (ff *FuncFacts) DeadEdges() map[[2]int]bool {
+	out := map[[2]int]bool{}
+	for k, v := range ff.removed {
+		if v {
+			out[k] = true
+		}
+	}
+	return out
+}
+
+// foldDecided removes the edges of tests that are already decided by the facts dominating
+// them: a repeated `if err != nil` below a branch on which err != nil holds has only one
+// feasible way out (re-tested conditions appear when a helper's error return is spliced in front
+// of the caller's own check, and in hand-written code that re-tests after logging).
+func (ff *FuncFacts) foldDecided() {
+	for round := 0; round < 4; round++ {
+		changed := false
+		for _, b := range ff.Fn.Blocks {
+			if !ff.reach[b] {
+				continue
+			}
+			iff, ok := lastInstr(b).(*ssa.If)
+			if !ok {
+				continue
+			}
+			c := ff.T.Cond(iff.Cond)
+			fs := ff.At(b)
+			var kill *ssa.BasicBlock
+			switch {
+			case fs.Has(c):
+				kill = b.Succs[1]
+			case fs.Has(c.Neg()):
+				kill = b.Succs[0]
+			case ff.doneErrNonNil(iff.Cond, fs) == 1:
+				kill = b.Succs[1]
+			case ff.doneErrNonNil(iff.Cond, fs) == -1:
+				kill = b.Succs[0]
+			default:
+				continue
+			}
+			key := [2]int{b.Index, kill.Index}
+			if !ff.removed[key] {
+				ff.removed[key] = true
+				changed = true
+			}
+		}
+		if !changed {
+			return
+		}
+		ff.recompute()
+	}
 }
 
 // Prune returns a copy of the analysis in which every if-edge whose fact equals
@@ -342,6 +452,7 @@ func (ff *FuncFacts) Prune(assume ...Fact) *FuncFacts {
 		}
 		n.recompute()
 	}
+	n.foldDecided()
 	return n
 }
 
